@@ -8,20 +8,6 @@ import (
 	"io"
 )
 
-type sliceReader struct {
-	b []byte
-	i int
-}
-
-func (r *sliceReader) Read(p []byte) (int, error) {
-	if r.i >= len(r.b) {
-		return 0, io.EOF
-	}
-	n := copy(p, r.b[r.i:])
-	r.i += n
-	return n, nil
-}
-
 func verifHasZero(b []byte) bool {
 	z := false
 	for _, c := range b {
@@ -201,6 +187,10 @@ func VerifH_C06_Connect() {
 		bad = []byte{0x00, 0}
 	}
 	resp := []byte{0x20, 2, 0, 0}
+	if verifChoice("moreconnacks", 2) == 1 {
+		// well-formed but unsolicited: repeated CONNACKs must neither wedge the reader nor hide what follows
+		resp = append(resp, 0x20, 2, 0, 0, 0x20, 2, 0, 0)
+	}
 	resp = append(resp, refEncodePublish([]byte("t"), 0, 0, false, false, []byte{1})...)
 	resp = append(resp, bad...)
 	conn.answerConnect(resp)
